@@ -18,8 +18,10 @@ RULE = ("per_class: every one of the 26 operation classes x generated field valu
         "apply_modifiers()) and implicitly (add(sub)); oracle: "
         "listing signatures equal position by position, schedule relative to own start equal, every internal relation "
         "of the copy has the same type and points at the copy listed at the index of the original's reference, no "
-        "operation object shared; then one side is mutated (add operation / apply modifiers / flatten) and the other "
-        "side's full fingerprint must be unchanged. Non-trivial = (per_class) non-default field values with a relation; "
+        "operation object shared; up to three direct sub-circuits are then copied stand-alone (after the whole-circuit "
+        "copy): same content, no relation to anything outside themselves; then one side is mutated (add operation / "
+        "apply modifiers / flatten) and the full fingerprint of the other side and of every stand-alone copy must be "
+        "unchanged. Non-trivial = (per_class) non-default field values with a relation; "
         "(programs) >= 1 explicit relation to a non-adjacent item and >= 1 kind with non-default fields; distinct = "
         "canonical JSON.")
 ASSUMPTIONS = [
@@ -259,13 +261,34 @@ def body_programs(case, ctx):
         if cp is None:
             return
         compare_copy(ctx, orig, cp, "circuit_structure.copy()", facts)
+        # stand-alone copies of (up to three) direct sub-circuits, taken after the whole circuit was copied: each is a
+        # circuit of its own - same content, and no relation into the original or into the earlier copy
+        subs, alone = [], []
+        with ctx.lib("sub-circuits"):
+            subs = O.children(orig)[1][:3]
+        for k, sub in enumerate(subs):
+            sc = refs = own = None
+            with ctx.lib("sub-circuit copy"):
+                sc = sub.copy()
+                inner_ops, inner_subs = list(sc.decomposed_operations()), list(sc.get_sub_composite_operations())
+                own = {id(x) for x in inner_ops + inner_subs} | {id(sc)}
+                refs = [x.relation_link.reference_node for x in [sc] + inner_ops + inner_subs]
+            if refs is None:
+                continue
+            compare_copy(ctx, sub, sc, f"stand-alone copy of sub-circuit {k}", facts)
+            foreign = [type(r).__name__ for r in refs if r is not None and id(r) not in own]
+            if foreign:
+                ctx.fail("copy-references-foreign-object", f"stand-alone copy of sub-circuit {k} (taken after the whole circuit was copied) "
+                         f"keeps a relation to {foreign[:3]} outside itself", facts)
+            alone.append(sc)
         if case["mutate"] == "none":
             return
         victim, bystander = (cp, orig) if case["side"] == "copy" else (orig, cp)
-        before = None
+        before = before_alone = None
         with ctx.lib("fingerprint"):
             before = _fp(bystander)
-        if before is None:
+            before_alone = [_fp(x) for x in alone]
+        if before is None or before_alone is None:
             return
         with ctx.lib(f"mutate {case['mutate']}"):
             if case["mutate"] == "add":
@@ -286,6 +309,15 @@ def body_programs(case, ctx):
             d = "listed objects changed"
         if d is not None:
             ctx.fail("copy-not-independent", f"{case['mutate']} on the {case['side']} changed the other side: {d}", facts)
+        after_alone = None
+        with ctx.lib("fingerprint"):
+            after_alone = [_fp(x) for x in alone]
+        for k, (x, y) in enumerate(zip(before_alone, after_alone or [])):
+            d = fp_diff(x, y)
+            if d is None and x["ids"] != y["ids"]:
+                d = "listed objects changed"
+            if d is not None:
+                ctx.fail("copy-not-independent", f"{case['mutate']} on the {case['side']} changed the stand-alone copy of sub-circuit {k}: {d}", facts)
 
 
 def _fp(struct):
